@@ -889,6 +889,24 @@ impl World {
     pub fn token(&self, k: &Pubkey) -> u64 {
         self.shadow.get(k).and_then(|a| token_amount(&a.data)).unwrap_or(0)
     }
+    /// transfer fee (basis points, maximum) the token program applies to mint `m` in the current
+    /// epoch, read from the mint account (scheduled fee changes take effect at their epoch)
+    pub fn transfer_fee_now(&self, m: usize) -> (u16, u64) {
+        use t22::extension::{transfer_fee::TransferFeeConfig, BaseStateWithExtensions, StateWithExtensions};
+        let md = &self.mints[m];
+        let fallback = match md.kind {
+            TokKind::T22Fee { bps, max } => (bps, max),
+            _ => return (0, 0),
+        };
+        let data = match self.shadow.get(&md.key) {
+            Some(a) => &a.data,
+            None => return fallback,
+        };
+        match StateWithExtensions::<t22::state::Mint>::unpack(data).ok().and_then(|st| st.get_extension::<TransferFeeConfig>().ok().map(|c| *c.get_epoch_fee(self.chain.clock.epoch))) {
+            Some(f) => (u16::from(f.transfer_fee_basis_points), u64::from(f.maximum_fee)),
+            None => fallback,
+        }
+    }
     pub fn mint_of_bank(&self, b: usize) -> &MintD {
         &self.mints[self.banks[b].mint]
     }
